@@ -22,6 +22,7 @@ namespace
 {
 Counter p_append_full("probe.append_on_full");
 Counter p_erase_mid("probe.erase_in_the_middle");
+Counter p_erase_foreign("probe.erase_position_of_another_container");
 Counter p_emplace_mid("probe.emplace_before_existing");
 Counter p_pop_empty("probe.pop_on_empty");
 Counter p_at_eq_size("probe.checked_access_at_size");
@@ -352,7 +353,7 @@ const std::vector<OpSchema>& fv_schema()
         { "push_back_range", { "obj", "n", "v0" } },
         { "insert_range", { "obj", "pos", "n", "v0" } },
         { "emplace_pos", { "obj", "pos", "val", "alias" } },
-        { "erase", { "obj", "pos" } },
+        { "erase", { "obj", "pos", "foreign" } },
         { "pop_back", { "obj" } },
         { "at", { "obj", "idx" } },
         { "at_const", { "obj", "idx" } },
@@ -1108,6 +1109,23 @@ struct Exec
             must_raise = pos >= sl.m.seq.size();
             if (!must_raise && pos + 1 < sl.m.seq.size())
                 p_erase_mid++;
+            if (op.a[2] > 0)
+            {
+                // a position that belongs to another live container (wherever the allocator put it,
+                // before or behind this one's storage): not a live element of this one
+                int oi = static_cast<int>((op.a[2] - 1) % NSLOT);
+                Slot& other = s[oi];
+                if (oi != si && normal(other))
+                {
+                    size_t opos = std::min(pos, other.m.cap);
+                    must_raise = true;
+                    p_erase_foreign++;
+                    res = guarded([&] { sl.p->erase(other.p->begin() + opos); });
+                    if (res != RS_OK && f.fired)
+                        resync = true;
+                    break;
+                }
+            }
             res = guarded([&] { sl.p->erase(sl.p->begin() + pos); });
             if (!must_raise)
                 expect.seq.erase(expect.seq.begin() + static_cast<long>(pos));
@@ -1742,7 +1760,9 @@ public:
                 break;
             case K_ERASE:
                 op.a[1] = std::min<int64_t>(pick_index(t.size, t.cap), static_cast<int64_t>(t.cap));
-                if (static_cast<size_t>(op.a[1]) < t.size)
+                if (rng.chance(1, 8))
+                    op.a[2] = static_cast<int64_t>(1 + rng.below(NSLOT)); // position taken from another container
+                else if (static_cast<size_t>(op.a[1]) < t.size)
                     t.size--;
                 break;
             case K_POP_BACK:
